@@ -805,11 +805,13 @@ std::vector<Scenario> scenarios_for(const std::string& prop, int tier) {
         { auto s = base("M5-session-lost", {RUN(), RECV(12), SUB({{"b/#", 2}}), BARRIER(), BPUB(2, 1), BPUB(1, 2)}, fam & ~F_CHUNK, 2, M_C04); s.broker.sp_policy = {-1, 0, -1}; v.push_back(s); }
         for (auto& s : v) s.expect_all_success = false;
     }
-    else if (prop == "C19") {
+    else if (prop == "C19" || prop == "C19a") {
+        bool small = prop == "C19a" && !tier;     // the ASan build runs a thinner quick tier (same phases, 6-byte alphabet)
         // hostile broker: byte strings replace / precede the expected reply in six client phases, under every chunking
         static const unsigned char ALQ[] = {0x00, 0x01, 0x02, 0x20, 0x30, 0x40, 0x62, 0x90, 0xE0, 0xFF};
         static const unsigned char ALT[] = {0x00, 0x01, 0x02, 0x03, 0x10, 0x20, 0x30, 0x32, 0x40, 0x50, 0x62, 0x70, 0x7F, 0x80, 0x90, 0xB0, 0xD0, 0xE0, 0xF0, 0xFF};
-        const unsigned char* AL = tier ? ALT : ALQ; int na = tier ? 20 : 10;
+        static const unsigned char ALS[] = {0x00, 0x01, 0x20, 0x40, 0x90, 0xFF};
+        const unsigned char* AL = tier ? ALT : (small ? ALS : ALQ); int na = tier ? 20 : (small ? 6 : 10);
         std::vector<std::string> strs; for (int a = 0; a < na; ++a) { strs.push_back(std::string(1, char(AL[a]))); for (int b = 0; b < na; ++b) { std::string x; x.push_back(char(AL[a])); x.push_back(char(AL[b])); strs.push_back(x); for (int c = 0; c < na; ++c) { std::string y = x; y.push_back(char(AL[c])); strs.push_back(y); } } }
         // a few longer classics: short acks, negative remaining length in the handshake, oversize lengths
         for (auto& x : {std::string("\x40\x00", 2), std::string("\x40\x01\x00", 3), std::string("\x50\x01\x07", 3), std::string("\x90\x01\x00", 3), std::string("\x20\x00\x00\x00\x00\x00\x00\x00", 8), std::string("\x20\x01\x00\x00\x00\x00", 6),
@@ -828,7 +830,7 @@ std::vector<Scenario> scenarios_for(const std::string& prop, int tier) {
         };
         int id = 0;
         auto add = [&](const Ph& ph, const std::string& raw, const char* kind) {
-            Scenario s = base(std::string("Z-") + ph.name + "-" + kind + "-" + std::to_string(id++), ph.script, F_CHUNK | F_BYTE, std::min<int>(tier ? 4 : 2, int(raw.size()) - 1), M_C19 | M_C01 | M_C14 | M_C02);
+            Scenario s = base(std::string("Z-") + ph.name + "-" + kind + "-" + std::to_string(id++), ph.script, F_CHUNK | F_BYTE, std::min<int>(tier ? 4 : (small ? 1 : 2), int(raw.size()) - 1), M_C19 | M_C01 | M_C14 | M_C02);
             if (s.D < 0) s.D = 0;
             if (ph.on_type) { s.broker.hostile.enabled = true; s.broker.hostile.on_type = ph.on_type; s.broker.hostile.nth = ph.nth; s.broker.hostile.raw = raw; }
             else for (auto& a : s.script) if (a.k == Action::BRAW) a.payload = raw;
